@@ -19,7 +19,7 @@ P = {
          "All accessors x all (offset, length, type) on containers of 0..24 bytes at every misalignment, every (src mod 8, dst mod 8, len<=9) class of the small-copy routine, depth-2 product of write route x read route, depth-3 on a reduced alphabet and write / nearly identical rewrite / read histories; single transfers of 2^24+1 bytes on a 16 MiB region; container (frame included) compared byte for byte after every operation.",
          "Containers <= 24 bytes plus MmapRegion of 24/4099 bytes; stream forms starting exactly at the end accept Ok(0) or Err.", "2/C04"),
  "C05": ("model_checking", "E1-bfs", "explicit-state exploration of derivation chains x write operations x page sizes x bitmap flavours x reset histories with a diff-driven dirtiness oracle",
-         "Every write path through every derivation chain of up to 2..3 links, page sizes from 1 byte to larger than the container, plain/Arc/optional/sliced bitmaps (made at size or grown by enlarge), histories interleaved with resets; oracle: every byte that changed is dirty in the owning region's bitmap at its own offset; all interleavings of one tracked write (20 paths, incl. reads from a real descriptor with read(2) as a scheduling point) with a fetch-and-clear consumer.",
+         "Every write path through every derivation chain of up to 2..3 links, page sizes from 1 byte to larger than the container, plain/Arc/optional/sliced bitmaps (made at size or grown by enlarge), histories interleaved with resets (whole bitmap, ranges, single pages, harvests); oracle: every byte that changed is dirty in the owning region's bitmap at its own offset; all interleavings of one tracked write (20 paths, incl. reads from a real descriptor with read(2) as a scheduling point) with a fetch-and-clear consumer.",
          "Containers of 16..24 bytes; chain depth <= 3; raw-pointer writes exempt as documented.", "2/C05"),
  "C06": ("model_checking", "E3-sched + trace enumeration", "trace enumeration of the primitive accesses of every (len, src mod 8, dst mod 8) class per entry point, and controlled-scheduler enumeration of all writer/reader interleavings at primitive-access granularity",
          "Hook H1 records width and address of every primitive volatile access issued by the byte-copy helper; for all 576 classes x entry points the access sequence is checked (single access of the full width when aligned); the same rule with the guest bytes or the local buffer at host addresses with exactly 4..46 trailing zero bits and at every aligned position of a 4 KiB page, also through slices that start off the word grid, and through guest memory whose regions start off the word grid; Cursor sinks at every position; all interleavings of a flipping writer and a reader are enumerated and the reader must see old or new. Ordering clause: src/atomic_integer.rs compiled with loom atomics, message-passing litmus for six integer types x four ordering pairs (acquire/release strength).",
@@ -37,7 +37,7 @@ P = {
          "From every reachable map: every insert interval of the universe, every region handle already held by the map or an ancestor, every (base,size) removal, every ordered build list of <= 3 intervals and lists with a repeated handle, the same lists through from_ranges / from_ranges_with_files with shared-file windows; all constructors, file-backed too, agree at the top of the address space; documented error classes; parent and all ancestor maps re-read after every transition.",
          "Universe of 6 (quick) or 11 (thorough) cells at three bases.", "2/C10"),
  "C11": ("model_checking", "E3-sched + E1-bfs", "controlled-scheduler enumeration of updater/reader interleavings at ArcSwap/Mutex-operation granularity, plus BFS over sequential handle histories",
-         "All interleavings within a preemption bound (stated) of updaters (lock, derive, replace) and readers (snapshot, read, clone, convert, drop); snapshot == exactly one published map (maps identified by start and region instance; updates insert, remove - down to the empty map - or swap a region for a fresh one of the same range; an updater may panic while holding the update lock, updates also run from destructors during unwinding, updates may be given up), no lost replacement, monotonic visibility, memory still mapped; sequential histories to depth 6.",
+         "All interleavings within a preemption bound (stated) of updaters (lock, derive, replace) and readers (snapshot, read, clone, convert, drop); snapshot == exactly one published map (maps identified by start and region instance; updates insert, remove - down to the empty map - or swap a region for a fresh one of the same range; an updater may panic while holding the update lock, updates also run from destructors during unwinding, updates may be given up; concurrent updates from destructors), no lost replacement, monotonic visibility, memory still mapped; sequential histories to depth 6.",
          "arc_swap internals execute for real but ArcSwap::load/store are treated as atomic steps; SC.", "2/C11"),
  "C12": ("model_checking", "E1-bfs + interposed mmap log + compile-fail grid", "explicit-state BFS over create/share/drop histories with link-time interposed mmap/munmap log; compile-fail grid for lifetimes",
          "All histories to depth 6 (quick) or 8 (thorough) over 3 region kinds and all drop orders; mapped iff an owner is alive, munmap exactly once with the mapped (addr,len), external mappings never unmapped; the mapping log replayed as an address-space model (no page mapped for a region may outlive its owners); size sweep 1 byte .. 1 GiB (thorough 4 GiB, incl. exact multiples of 1 GiB) x drop orders of five owners; creations that fail half-way under one mmap / lseek fault leave nothing mapped; builder sweep over protections x flag words x sizes x backing (mlock/madvise/mprotect interposed and failed one at a time); std and Xen builds. A generated grid of escaping-accessor programs must be rejected by rustc while each non-escaping twin compiles.",
@@ -46,7 +46,7 @@ P = {
          "Every adapter the crate provides x every stream length 0..20, cursor position incl. past-the-end and u64::MAX, buffer length 0..20 x sequences of up to 3 (thorough 4) calls, single transfers up to 2^21 (thorough 2^24) bytes, plain and exact forms; descriptor adapters also under short and EINTR-interrupted system calls, wrong access modes and datagram sockets; same count, bytes, remaining stream state and error kind as std.",
          "TcpStream/Stdout exercised only where the sandbox allows; stream state after a failed exact call not compared.", "2/C13"),
  "C14": ("fault_enumeration", "E2-choice-tree", "choice-tree DFS over all fault scripts (short/zero/EINTR*/error) of the underlying stream, scripted adapters and interposed read/write syscalls",
-         "Every script of per-call behaviours up to the length bound for three targets (slice, region, guest memory spanning two regions and a hole), all four transfer forms plus the trait-level exact forms; transfer model: EINTR retried (also 33, 64 and 1000 times in a row), transfers of up to 3 MiB with short calls around 2^20, errors surface, no byte lost or duplicated.",
+         "Every script of per-call behaviours up to the length bound for three targets (slice, region, guest memory spanning two regions and a hole), all four transfer forms plus the trait-level exact forms; transfer model: EINTR retried (also 33, 64 and 1000 times in a row), transfers of up to 3 MiB with short calls around 2^20 and failing calls, errors surface, no byte lost or duplicated.",
          "Scripts up to 5 calls, EINTR runs up to 3; counts {0,1,5,8,9,13}.", "2/C14"),
  "C15": ("fault_enumeration", "exhaustive-inputs + fault injection", "exhaustive enumeration of construction requests (sizes x file lengths x offsets x flag words incl. all Xen flag bytes) with injected mmap/ioctl failures, interposed mapping log",
          "Acceptance predicate from the statement; attribute echo on success; nothing left mapped on failure (interposed log); sequences of file lengths through one FileOffset lineage; every length query answered with EIO / 0 / 2^40; shared file coherence byte by byte; file offsets around 2^31, 2^32, 2^33 in a sparse file; the descriptor's cursor left anywhere; explicit flag and protection words echoed for every Xen mapping type; anonymous builder x hugetlbfs hint x sizes around 2 MiB multiples, refusals compared with the kernel's own answer; Xen: all 256 low flag bytes and every high bit, emulated devices, injected failures.",
@@ -64,7 +64,7 @@ P = {
          "impl_address_ops! from the current tree instantiated at width 8 (all 2^16 pairs per operation) and 16 (thorough, all 2^32); GuestAddress/MemoryRegionAddress at width 64 on the +-4 grid around 0, 2^8.. 2^64 squared and all 64 alignments.",
          "Width 64 is covered by a boundary grid, not exhaustively; genericity of the macro over the width.", "2/C19"),
  "C20": ("exploration", "exhaustive-inputs", "exhaustive enumeration of all 16-bit values (and all 32-bit in thorough), structured byte alphabet for 64-bit, against to_le_bytes/to_be_bytes",
-         "Round trip, in-memory bytes, equality both ways, size/alignment and bytes found in guest memory after write_obj for all eight wrappers; placement at every offset, objects across regions, records of wrappers, typed copies of 1..257 wrappers at every address mod 8, overlapping moves of stored wrappers.",
+         "Round trip, in-memory bytes, equality both ways, size/alignment and bytes found in guest memory after write_obj for all eight wrappers; placement at every offset, objects across regions, records of wrappers, typed copies of 1..257 wrappers at every address mod 8, overlapping moves of stored wrappers, wire bytes through host byte buffers at every offset within a word.",
          "64-bit coverage is a bounded alphabet (6^8 byte patterns + rotations + single bits).", "2/C20"),
 }
 
